@@ -535,7 +535,8 @@ def gen_case(rng, quick=True):
         var_sets.append(vs)
     for _ in range(nsteps):
         steps.append({'doc': rng.choice(docs), 'tz': rng.choice(tzs), 'vars': rng.randrange(len(var_sets)),
-                      'api': rng.choice(['token', 'selector', 'selector', 'evaluate'])})
+                      'api': rng.choice(['token', 'selector', 'selector', 'evaluate']),
+                      'root': rng.choice(['element', 'element', 'tree'])})
     return {'ast': ast, 'merge': rng.random() < 0.5, 'heap': heap, 'var_sets': var_sets, 'steps': steps,
             'flavour': flavour}
 
@@ -551,24 +552,6 @@ def doc_counts(i):
     return {90: nb, 91: len(list(root)), 92: len(''.join(root.itertext()))}
 
 
-_LIVE_LEX = None
-
-
-def live_callee_lexical() -> bool:
-    """TRANSLATOR STEP: which callee-dict discipline does the live `_InlineFunction.__call__` implement?  Probed
-    with the F05c witness on the real code (never cached across runs): XPST0008 = the body sees its closure only
-    (branch fix-c05c, model flag `calleeLexical`), 5 = caller's variables visible (finding F05c)."""
-    global _LIVE_LEX
-    if _LIVE_LEX is None:
-        import elementpath
-        import xml.etree.ElementTree as ET
-        from elementpath.xpath31 import XPath31Parser
-        r = guarded(lambda: elementpath.select(ET.XML('<a/>'), 'let $f := function(){$y} return let $y := 5 return $f()',
-                                               parser=XPath31Parser))
-        _LIVE_LEX = (r == 'ERR:unbound')
-    return _LIVE_LEX
-
-
 def line_of(case) -> str:
     heap = ';'.join(f'{l}:{"n" if z is None else z}' for l, z in case['heap']) or '_'
     steps = []
@@ -580,7 +563,7 @@ def line_of(case) -> str:
         for n, c in doc_counts(s['doc']).items():
             kv.append(f'{n}:i{c}')
         steps.append(f'{"n" if s["tz"] is None else s["tz"]}#' + (','.join(kv) or '_'))
-    return f'LEX={1 if live_callee_lexical() else 0} H={heap} STEPS={"|".join(steps)} E={encode(case["ast"])}'
+    return f'H={heap} STEPS={"|".join(steps)} E={encode(case["ast"])}'
 
 
 # ------------------------------------------------------------------------- the real code
@@ -642,6 +625,13 @@ def make_doc(i):
     import xml.etree.ElementTree as ET
     root = ET.XML(text)
     return root, (lambda: ET.tostring(root))
+
+
+def as_tree(root):
+    if hasattr(root, 'getroottree'):
+        return root.getroottree()
+    import xml.etree.ElementTree as ET
+    return ET.ElementTree(root)
 
 
 def heap_state(objs) -> str:
@@ -730,6 +720,8 @@ def run_impl(case):
         if s['doc'] not in docs:
             docs[s['doc']] = make_doc(s['doc'])
         root, tostr = docs[s['doc']]
+        if s.get('root') == 'tree':       # the same document handed over as ElementTree / lxml _ElementTree (document node)
+            root = as_tree(root)
         if s['vars'] not in var_dicts:
             var_dicts[s['vars']] = build_vars(s['vars'])
         variables = var_dicts[s['vars']]
@@ -765,6 +757,8 @@ def run_impl(case):
         rec['heap'] = heap_state(objs)
         # a freshly parsed expression on a fresh context, fresh document, fresh objects
         froot, _ = make_doc(s['doc'])
+        if s.get('root') == 'tree':
+            froot = as_tree(froot)
         fvars = build_vars(s['vars'], shared=False)
         rec['fresh'] = guarded(lambda: elementpath.select(froot, src, namespaces=dict(NS), parser=XPath31Parser,
                                                           variables=fvars, timezone=tz))
@@ -886,11 +880,11 @@ def compare(run: Run, cases: list, stats=True) -> None:
         for k, (rec, m) in enumerate(zip(impl['steps'], recs)):
             pc = public_case(case, k)
             api = case['steps'][k]['api']
-            tags = ['F05c'] if m['ws'] == '0' else []
+            tags = []
             if stats:
                 st.count('api:' + api)
+                st.count('root:' + case['steps'][k].get('root', 'element'))
                 st.count('result:' + (rec['impl'] if rec['impl'].startswith('ERR') else 'ok'))
-                st.count('outside-F05c-trigger' if m['ws'] == '1' else 'inside-F05c-trigger')
                 if m['p'] != m['m']:
                     st.count('pinned-model-differs (F05/F05b-sensitive step)')
             if rec['impl'] != m['s']:
@@ -1069,16 +1063,38 @@ ORACLE_EXPRS = [
 ]
 
 
+def canon_one(x, depth=0) -> str:
+    from elementpath.xpath_tokens import XPathFunction, XPathMap, XPathArray
+    from elementpath.xpath_nodes import XPathNode
+    if hasattr(x, 'tag'):
+        return f'<{x.tag}>'
+    if hasattr(x, 'getroot'):
+        return '<document>'
+    if depth < 4:
+        try:
+            if isinstance(x, XPathMap):
+                return 'map{' + ','.join(sorted(f'{canon_one(k, depth + 1)}:{canon_seq(v, depth + 1)}' for k, v in x.items())) + '}'
+            if isinstance(x, XPathArray):
+                return 'array[' + ','.join(canon_seq(v, depth + 1) for v in x.items()) + ']'
+        except Exception as e:  # noqa
+            return f'{type(x).__name__}!{type(e).__name__}'
+    if isinstance(x, XPathFunction):
+        return f'function:{getattr(x, "name", None) or x.symbol}#{x.arity}'
+    if isinstance(x, XPathNode):
+        return f'{type(x).__name__}:{getattr(x, "name", None)}:{x.string_value[:30]!r}'
+    return re.sub(r' at 0x[0-9a-f]+', '', f'{type(x).__name__}:{x!r}')[:80]
+
+
+def canon_seq(v, depth=0) -> str:
+    if not isinstance(v, list):
+        v = [v]
+    return '(' + ','.join(canon_one(y, depth) for y in v) + ')'
+
+
 def canon_any(res) -> str:
     if not isinstance(res, list):
         res = [res]
-    out = []
-    for x in res:
-        if hasattr(x, 'tag'):
-            out.append(f'<{x.tag}>')
-        else:
-            out.append(f'{type(x).__name__}:{x!r}'[:50])
-    return ','.join(out) or '()'
+    return ','.join(canon_one(x) for x in res) or '()'
 
 
 def cache_histories(run: Run) -> None:
@@ -1215,7 +1231,8 @@ def translate(run: Run) -> dict:
               if kind == 'xnode' else w in quads if kind in ('namespaces', 'variables') else False)
         if not ok:
             new_tree.append(w)
-    info['new'] = {'token': new_token, 'binds': new_binds, 'tree': new_tree}
+    new_module = [w for w in info['module'] if w not in quads]
+    info['new'] = {'token': new_token, 'binds': new_binds, 'tree': new_tree, 'module': new_module}
     return info
 
 
@@ -1241,7 +1258,10 @@ def harvested_expressions():
         out = []
         parser = XPath31Parser(namespaces=dict(NS))
         own = CACHE_EXPRS + [e for e, _ in ORACLE_EXPRS] + [e for es in OBJ_EXPRS.values() for e in es]
-        for e in own + sorted(seen - set(own)):
+        volatile = re.compile(r'generate-id|current-date|current-time|current-dateTime|random-number|environment-variable|'
+                              r'implicit-timezone|doc\(|doc-available|collection\(|unparsed-text|uri-collection|document-uri|base-uri|'
+                              r'static-base-uri|default-collation|trace\(')
+        for e in own + sorted(x for x in seen - set(own) if not volatile.search(x)):
             try:
                 out.append((e, parser.parse(e)))
             except Exception:  # noqa
@@ -1320,6 +1340,203 @@ def site_histories(run: Run, functions, limit=400):
     return found
 
 
+def reviewed_dynamic_functions():
+    """functions of the reviewed token-state sites classified `.dynamic` (read from Spec/PuritySites.lean)"""
+    from harness.common import LEAN
+    spec = (LEAN / 'EPV' / 'Spec' / 'PuritySites.lean').read_text()
+    i, j = spec.index('def reviewedTokenWrites'), spec.index('def reviewedModuleWrites')
+    return sorted({fn for _, fn, _ in re.findall(r'\(\("([^"]*)", "([^"]*)", "([^"]*)"\), \.dynamic\)', spec[i:j])})
+
+
+def dynamic_site_histories(run: Run) -> None:
+    """EVERY run: for each reviewed DYNAMIC token-state site, two-document histories of (a sample of) the expressions
+    whose token tree uses that function, generated from the site's token class (`site_histories`)"""
+    for fn in reviewed_dynamic_functions():
+        key = {fn, fn.split('.')[-1]} if '.' not in fn else {fn}
+        sub_notes = len(run.notes)
+        for d in site_histories(run, key, limit=run.scale(25, 200)):
+            run.disagree(d)
+        run.stats.count('dynamic-site-histories:' + fn)
+        del run.notes[sub_notes:]
+
+
+API_DOC = '<r xmlns:p="urn:c05:p" xmlns:q="urn:c05:q"><p:b>1</p:b><q:b>2</q:b><q:b>3</q:b><b>4</b></r>'
+API_EXPRS = ["count(//p:b)", "//p:b/string()", "sum(//p:b)", "name(//p:b[1])", "count(//Q{urn:c05:q}b)", "//*[self::p:b]/string()",
+             "for $x in //p:b return $x + $v", "let $f := function($e) { count($e/p:b) } return $f(/*)",
+             "count(//b)", "string-join(//p:b ! string(), ',')", "exists(//p:b[. = $v])", "$p:w + count(//p:b)"]
+
+
+def api_histories(run: Run) -> None:
+    """module-level select() / iter_select(), Selector and explicit parser + context must agree while the SAME
+    expression text is used with DIFFERENT prefix bindings, variables, parser classes and root kinds in one process
+    (a cache keyed by the text, by the prefixes or by the parser would show)"""
+    import elementpath
+    import xml.etree.ElementTree as ET
+    import lxml.etree as LE
+    from elementpath import XPathContext, Selector, XPath2Parser
+    from elementpath.xpath30 import XPath30Parser
+    from elementpath.xpath31 import XPath31Parser
+    rng = run.rng
+    nss = [{'p': 'urn:c05:p', 'q': 'urn:c05:q'}, {'p': 'urn:c05:q', 'q': 'urn:c05:p'}, {'p': 'urn:c05:none'}]
+    roots = [ET.XML(API_DOC), ET.ElementTree(ET.XML(API_DOC)), LE.XML(API_DOC.encode()), LE.XML(API_DOC.encode()).getroottree()]
+    selectors = {}
+
+    def g(f):
+        try:
+            return canon_any(f())
+        except Exception as e:  # noqa
+            return canon_error(e)
+    for _ in range(run.scale(250, 2500)):
+        expr = rng.choice(API_EXPRS)
+        ns = rng.choice(nss)
+        pc = rng.choice([XPath31Parser, XPath31Parser, XPath30Parser, XPath2Parser])
+        if pc is XPath2Parser and ('function' in expr or 'let ' in expr or '!' in expr or 'Q{' in expr):
+            pc = XPath30Parser if 'Q{' not in expr and '!' not in expr else XPath31Parser
+        root = rng.choice(roots)
+        vs = {'v': rng.randrange(1, 4), '{%s}w' % ns['p']: 7}
+        want = g(lambda: pc(namespaces=dict(ns)).parse(expr).get_results(XPathContext(root, namespaces=dict(ns), variables=dict(vs))))
+        api = rng.choice(['select', 'iter_select', 'Selector'])
+        if api == 'select':
+            got = g(lambda: elementpath.select(root, expr, namespaces=dict(ns), parser=pc, variables=dict(vs)))
+        elif api == 'iter_select':
+            got = g(lambda: list(elementpath.iter_select(root, expr, namespaces=dict(ns), parser=pc, variables=dict(vs))))
+        else:
+            key = (expr, tuple(sorted(ns.items())), pc)
+            if key not in selectors:
+                selectors[key] = Selector(expr, namespaces=dict(ns), parser=pc)
+            got = g(lambda: selectors[key].select(root, namespaces=dict(ns), variables=dict(vs)))
+        run.stats.count('api-history-steps:' + api)
+        if got != want:
+            run.disagree(Disagreement({'xpath': expr, 'namespaces': ns, 'parser': pc.__name__, 'api': api, 'variables': {'v': vs['v']},
+                                       'root': type(root).__module__ + '.' + type(root).__name__, 'document': API_DOC},
+                                      got, None, spec=want, what='api-vs-explicit-parse', site='xpath_selectors'))
+            return
+
+
+def context_reuse_histories(run: Run) -> None:
+    """ONE XPathContext object reused for a sequence of different expressions (paths, predicates, binders, raising ones):
+    each result must equal the result on a fresh context, and the context's focus / variables must be as before."""
+    from elementpath import XPathContext
+    from elementpath.xpath31 import XPath31Parser
+    rng = run.rng
+    exprs = ["//b[2]/text()", "count(//b)", "/*/b[. = 2]/position()", "for $x in //b return $x/$undef", "//b ! (if (. = 2) then error() else .)",
+             "//b[1 div (. - 1)]", "string(.)", "name(.)", "position()", "last()", "//b/following-sibling::*[1]/name()",
+             "(//b)[last()]/preceding-sibling::b/string()", "some $x in //b satisfies $x/$undef", "//c/ancestor::*/name()",
+             "//b[xs:integer(.) idiv 0 = 1]", ". instance of element()", "//b treat as element()*", "//b instance of element()+", "//b ! position()", "/*/node()[3]/string()", "sum(//b[. castable as xs:integer])",
+             "//b/string-length#0()", "//b[position() = last()]", "name(..)", "count(./*)", "let $v := 9 return $v + count(//b)", "$v",
+             "for $v in (1, 2) return $v", "function($v) { $v }(5) + $v", "every $x in //b satisfies $x = $v"] + \
+            [e for e in CACHE_EXPRS if '$p:' not in e and 'Q{' not in e]
+    parser = XPath31Parser(namespaces=dict(NS))
+    tokens = {}
+
+    def run_one(tk, ctx):
+        try:
+            return canon_any(tk.get_results(ctx))
+        except RecursionError as e:
+            return canon_error(e)
+        except Exception as e:  # noqa
+            return canon_error(e)
+
+    def state(c):
+        return (id(c.item), c.position, c.size, c.axis, id(c.root), sorted((k, canon_any(v)) for k, v in c.variables.items()))
+    for _ in range(run.scale(40, 400)):
+        d = rng.randrange(len(DOCS))
+        root, tostr = make_doc(d)
+        if rng.random() < 0.4:
+            root = root.getroottree() if hasattr(root, 'getroottree') else __import__('xml.etree.ElementTree').etree.ElementTree.ElementTree(root)
+        v = rng.randrange(1, 4)
+        ctx = XPathContext(root, namespaces=dict(NS), variables={'v': v})
+        s0, hist, raised_paths = state(ctx), [], False
+        for _ in range(rng.randrange(4, 12)):
+            e = rng.choice(exprs)
+            hist.append(e)
+            try:
+                tk = tokens.get(e) or tokens.setdefault(e, parser.parse(e))
+            except Exception:  # noqa
+                continue
+            got = run_one(tk, ctx)
+            fresh = run_one(parser.parse(e), XPathContext(root, namespaces=dict(NS), variables={'v': v}))
+            run.stats.count('context-reuse-steps')
+            case = {'document': DOCS[d][1], 'v': v, 'expressions_on_one_context': list(hist)}
+            # trigger of finding F05d (until fix-c05-3 is picked): an `instance of` / `treat as` was evaluated on this context
+            tags = ['F05d'] if any(re.search(r'\b(instance\s+of|treat\s+as)\b', x) for x in hist) else []
+            # trigger of finding F05e (same): a path starting with `/` raised on this context
+            raised_paths = raised_paths or (got.startswith('ERR') and e.lstrip('( ').startswith('/'))
+            if raised_paths and not tags:
+                tags = ['F05e']
+            if got != fresh:
+                run.disagree(Disagreement(case, got, None, spec=fresh, what='reused-context-vs-fresh', site='XPathContext focus',
+                                          tags=tags))
+                break
+            if state(ctx) != s0:
+                run.disagree(Disagreement(case, 'context-changed', None, spec='unchanged', what='caller-context-modified',
+                                          site='XPathContext focus', tags=tags))
+                break
+
+
+_FRESH_SCRIPT = r"""
+import sys, json
+sys.path.insert(0, sys.argv[1]); sys.path.insert(0, sys.argv[2])
+from harness import common
+common.use_repo()
+from harness import c05
+jobs = json.load(sys.stdin)
+print(json.dumps([c05.run_job(j) for j in jobs]))
+"""
+
+
+def run_job(job) -> str:
+    """one isolated evaluation described by plain data (used in this process and in a fresh one)"""
+    import elementpath
+    from elementpath import XPath2Parser
+    from elementpath.xpath30 import XPath30Parser
+    from elementpath.xpath31 import XPath31Parser
+    pc = {'2.0': XPath2Parser, '3.0': XPath30Parser, '3.1': XPath31Parser}[job['parser']]
+    kw = {}
+    if job.get('xsd_version'):
+        kw['xsd_version'] = job['xsd_version']
+    try:
+        return canon_any(elementpath.select(make_doc(job['doc'])[0], job['xpath'], namespaces=job['namespaces'], parser=pc,
+                                            variables=job['variables'], **kw))
+    except RecursionError as e:
+        return canon_error(e)
+    except Exception as e:  # noqa
+        return canon_error(e)
+
+
+def fresh_process_histories(run: Run, n: int, functions=None):
+    """a history of n isolated select() calls in THIS process (same expression texts recurring with different documents,
+    prefix bindings, variables, parser and XSD versions) against the same jobs evaluated in reverse order by a FRESH
+    Python process: state kept at module / class level shows as a difference"""
+    import json
+    import subprocess
+    from harness.common import VERIF, REPO
+    rng = run.rng
+    pool = [e for e, tk in harvested_expressions() if functions is None or token_uses(tk, functions)]
+    if len(pool) < 40:
+        pool += [e for e, _ in harvested_expressions()]
+    base = rng.sample(pool, min(len(pool), max(20, n // 6)))
+    jobs = []
+    for _ in range(n):
+        ns = rng.choice([dict(NS), {'p': 'urn:c05:q', 'xs': NS['xs']}, {'p': 'urn:c05:p', 'tst': 'urn:t', 'xs': NS['xs']}])
+        jobs.append({'xpath': rng.choice(base), 'doc': rng.randrange(len(DOCS)), 'namespaces': ns,
+                     'parser': rng.choice(['3.1', '3.1', '3.0', '2.0']), 'xsd_version': rng.choice([None, '1.0', '1.1']),
+                     'variables': {'v': rng.randrange(1, 4), 'x': 1, 'a': 1, 'b': 2, 'var': 'abc', 'word': 'alpha', 'n': 3}})
+    here = [run_job(j) for j in jobs]
+    p = subprocess.run([sys.executable, '-c', _FRESH_SCRIPT, str(VERIF), str(REPO)], input=json.dumps(jobs[::-1]),
+                       capture_output=True, text=True, timeout=600, env={**__import__('os').environ, 'VERIF_REPO': str(REPO)})
+    if p.returncode != 0:
+        raise RuntimeError('fresh process failed: ' + p.stderr[-800:])
+    there = json.loads(p.stdout.strip().splitlines()[-1])[::-1]
+    found = []
+    for k, (j, a, b) in enumerate(zip(jobs, here, there)):
+        if a != b:
+            found.append(Disagreement({'job': j, 'position_in_history': k, 'document': DOCS[j['doc']][1]}, a, None, spec=b,
+                                      what='history-in-process-vs-fresh-process', site='module / class level state'))
+    run.stats.count('fresh-process-jobs', len(jobs))
+    return found
+
+
 # --------------------------------------------------------------------------- search
 def template_cases():
     """every binder kind inside every binder kind, on a name that is / is not a caller's variable, followed by a
@@ -1372,10 +1589,15 @@ def search(run: Run):
     sub.rng = run.rng
     new = getattr(run, 'new_sites', None) or {}
     funcs = {fn.split('.')[-1] if '.' not in fn else fn for _, fn, _ in new.get('token', [])} | \
-            {fn for _, fn, _ in new.get('binds', [])} | {fn for _, _, fn, _ in new.get('tree', [])}
+            {fn for _, fn, _ in new.get('binds', [])} | {fn for _, _, fn, _ in new.get('tree', [])} | \
+            {fn for _, _, fn, _ in new.get('module', [])}
     funcs |= {f.split('.')[0] for f in funcs} | {f.split('.')[-1] for f in funcs}
     if funcs:
         found = site_histories(run, funcs)
+        if found:
+            return found
+        # state that outlives the objects (module / class level): only another PROCESS is a fresh oracle
+        found = fresh_process_histories(run, run.scale(400, 1500), functions=funcs)
         if found:
             return found
     cases = template_cases() + [gen_case(run.rng, True) for _ in range(run.scale(1500, 6000))]
@@ -1644,20 +1866,22 @@ def body(run: Run) -> int:
     run.stats.extra['structural_scan'] = {'tree_dict_schema_node_write_sites': len(info['tree']),
                                           'variables_bind_sites': len(info['binds']),
                                           'token_state_sites': len(info['token']),
+                                          'module_class_state_sites': len(info['module']),
                                           'unreviewed': {k: [list(x) for x in v] for k, v in info['new'].items() if v}}
     run.trusted_base.append('translator harness/c05_sites.py (syntactic, name-based ast scan of the package for write sites)')
     if getattr(run, 'replay', None):
         run.prove(['EPV.Props.C05', 'EPV.Props.C05Sites'], ['EPV.Spec.LexicalSem'])
         return replay(run, run.replay)
     run.prove(['EPV.Props.C05', 'EPV.Props.C05Sites'], ['EPV.Spec.LexicalSem'])
-    lex = live_callee_lexical()
-    run.stats.extra['live_callee_dict'] = ('closure + parameters only (F05c repaired; theorems eval_eq_sem, history_eq_sem apply)'
-                                           if lex else 'caller + closure + parameters (finding F05c; eval_eq_sem_partial applies)')
-    run.notes.append('model flag calleeLexical=%s chosen by probing the live _InlineFunction.__call__ with the F05c witness' % lex)
     try:
         correspond(run)
         cache_histories(run)
         object_histories(run)
+        dynamic_site_histories(run)
+        api_histories(run)
+        context_reuse_histories(run)
+        for d in fresh_process_histories(run, run.scale(150, 1500)):
+            run.disagree(d)
     except DriverError as e:
         run.broken.append('driver:C05 ' + str(e)[:300])
     return run.finish('proof', shrink=shrink, search=search)
